@@ -12,7 +12,7 @@ import (
 // d dir; d/f regular; e regular or dir or absent; h hard link to d/f or absent; l symlink or absent;
 // p fifo / char device or absent. Permission/special bits, uid, gid symbolic; mtimes from a small
 // set; regular files carry 0..maxb symbolic bytes. Returns the expected view (path -> entry).
-func symDiskTree(root string, maxb int) {
+func vh_symDiskTree(root string, maxb int) {
 	// S selects the optional parts of the universe: 1 = h (hard link), 2 = l (symlink), 4 = p (fifo/device), 8 = e, 16 = zl (second name of the symlink l)
 	sel := v.Param("S", 15)
 	perm := func() uint32 { return v.U32("perm") & 07777 }
@@ -26,12 +26,12 @@ func symDiskTree(root string, maxb int) {
 		}
 		return x
 	}
-	m.MkDir(root+"/d", perm(), id("uid"), id("gid"), chooseMtime("mtime"))
+	m.MkDir(root+"/d", perm(), id("uid"), id("gid"), vh_chooseMtime("mtime"))
 	if v.Param("X", 0) != 0 && v.Bool("xattr-d") {
 		m.SetXattr(root+"/d", "user.d", v.Bytes("xd", 1))
 	}
 	if v.Bool("has-d/f") {
-		m.MkFile(root+"/d/f", v.Bytes("data", v.Choose("size", maxb+1)), perm(), id("uid"), id("gid"), chooseMtime("mtime"))
+		m.MkFile(root+"/d/f", v.Bytes("data", v.Choose("size", maxb+1)), perm(), id("uid"), id("gid"), vh_chooseMtime("mtime"))
 		if v.Param("X", 0) != 0 && v.Bool("xattr-f") {
 			m.SetXattr(root+"/d/f", "user.f", v.Bytes("xf", 1))
 		}
@@ -45,12 +45,12 @@ func symDiskTree(root string, maxb int) {
 	}
 	switch ce {
 	case 1:
-		m.MkFile(root+"/e", v.Bytes("data", v.Choose("size", maxb+1)), perm(), id("uid"), id("gid"), chooseMtime("mtime"))
+		m.MkFile(root+"/e", v.Bytes("data", v.Choose("size", maxb+1)), perm(), id("uid"), id("gid"), vh_chooseMtime("mtime"))
 	case 2:
-		m.MkDir(root+"/e", perm(), id("uid"), id("gid"), chooseMtime("mtime"))
+		m.MkDir(root+"/e", perm(), id("uid"), id("gid"), vh_chooseMtime("mtime"))
 	}
 	if sel&2 != 0 && v.Bool("has-l") {
-		m.MkSymlink(root+"/l", []string{"d/f", "d"}[v.Choose("target-l", 2)], id("uid"), id("gid"), chooseMtime("mtime"))
+		m.MkSymlink(root+"/l", []string{"d/f", "d"}[v.Choose("target-l", 2)], id("uid"), id("gid"), vh_chooseMtime("mtime"))
 		if sel&16 != 0 && v.Bool("has-l2") {
 			// a second name of the symlink's inode (link(2) on a symlink), in another directory
 			m.MkLink(root+"/l", root+"/zl")
@@ -62,17 +62,17 @@ func symDiskTree(root string, maxb int) {
 	}
 	switch cp {
 	case 1:
-		m.MkNode(root+"/p", m.KFifo, perm(), 0, id("uid"), id("gid"), chooseMtime("mtime"))
+		m.MkNode(root+"/p", m.KFifo, perm(), 0, id("uid"), id("gid"), vh_chooseMtime("mtime"))
 	case 2:
-		m.MkNode(root+"/p", m.KChar, perm(), 0x0103, id("uid"), id("gid"), chooseMtime("mtime"))
+		m.MkNode(root+"/p", m.KChar, perm(), 0x0103, id("uid"), id("gid"), vh_chooseMtime("mtime"))
 	}
 	// populating changed the directory mtimes; give them their final values last
-	m.SetMtime(root+"/d", chooseMtime("mtime-d"))
+	m.SetMtime(root+"/d", vh_chooseMtime("mtime-d"))
 }
 
 // symDirtyDest puts leftovers into dest: nothing, a stale file, an entry of another type at "e",
 // a file where the source has the directory "d".
-func symDirtyDest(dest string) {
+func vh_symDirtyDest(dest string) {
 	switch v.Choose("dirty", v.Param("D", 5)) {
 	case 1:
 		m.MkFile(dest+"/zz", []byte("z"), 0644, 0, 0, 5)
@@ -92,7 +92,7 @@ func symDirtyDest(dest string) {
 	}
 }
 
-func xattrsEqual(a, b *m.Entry) bool {
+func vh_xattrsEqual(a, b *m.Entry) bool {
 	if len(a.XKeys) != len(b.XKeys) {
 		return false
 	}
@@ -110,7 +110,7 @@ func xattrsEqual(a, b *m.Entry) bool {
 	return ok
 }
 
-func sameGroup(snap []m.Entry, a, b string) bool {
+func vh_sameGroup(snap []m.Entry, a, b string) bool {
 	var ia, ib uint64
 	for i := range snap {
 		if snap[i].Path == a {
@@ -126,7 +126,7 @@ func sameGroup(snap []m.Entry, a, b string) bool {
 // specTreesEqual: dest equals the source tree: path set, types, bytes, permission and special
 // bits, uid/gid, symlink targets, device numbers, hard-link groups, mtimes of non-directories and of
 // directories the transfer created.
-func specTreesEqual(src, dst []m.Entry, createdDir func(string) bool) {
+func vh_specTreesEqual(src, dst []m.Entry, createdDir func(string) bool) {
 	v.Assert(len(src) == len(dst), "destination has exactly the paths of the source")
 	for i := range src {
 		s := &src[i]
@@ -154,11 +154,11 @@ func specTreesEqual(src, dst []m.Entry, createdDir func(string) bool) {
 			v.Assert(d.Mtime == s.Mtime, "mtimes are equal (non-directories and created directories)")
 		}
 		if s.Kind == m.KFile || (s.Kind == m.KDir && createdDir(s.Path)) {
-			v.Assert(xattrsEqual(s, d), "xattrs of regular files and of created directories are equal")
+			v.Assert(vh_xattrsEqual(s, d), "xattrs of regular files and of created directories are equal")
 		}
 		for k := range src {
 			if k != i && src[k].Kind == m.KFile && s.Kind == m.KFile {
-				v.Assert(sameGroup(src, s.Path, src[k].Path) == sameGroup(dst, s.Path, src[k].Path), "hard-link groups are equal")
+				v.Assert(vh_sameGroup(src, s.Path, src[k].Path) == vh_sameGroup(dst, s.Path, src[k].Path), "hard-link groups are equal")
 			}
 		}
 	}
@@ -171,8 +171,8 @@ func VH_C01_e2e() {
 	maxb := v.Param("MAXB", 1)
 	m.Reset()
 	srcRoot, dest := m.Root("src"), m.Root("dest")
-	symDiskTree(srcRoot, maxb)
-	symDirtyDest(dest)
+	vh_symDiskTree(srcRoot, maxb)
+	vh_symDirtyDest(dest)
 	priorDirs := map[string]bool{}
 	for _, e := range m.Snapshot(dest) {
 		if e.Kind == m.KDir {
@@ -186,7 +186,7 @@ func VH_C01_e2e() {
 		return
 	}
 	ctx := context.Background()
-	s1, s2 := newStreamPair(ctx, 512)
+	s1, s2 := vh_newStreamPair(ctx, 512)
 	var sendErr, recvErr error
 	sendDone, recvDone := make(chan struct{}), make(chan struct{})
 	go func() {
@@ -219,7 +219,7 @@ func VH_C01_e2e() {
 				}
 			}
 		}
-		specTreesEqual(srcSnap, fromSrc, func(p string) bool { return !priorDirs[p] })
+		vh_specTreesEqual(srcSnap, fromSrc, func(p string) bool { return !priorDirs[p] })
 		for i := range destBefore {
 			o := &destBefore[i]
 			inSrc, replaced := false, false
@@ -227,7 +227,7 @@ func VH_C01_e2e() {
 				if s.Path == o.Path {
 					inSrc = true
 				}
-				if isUnder(o.Path, s.Path) && s.Kind != m.KDir {
+				if vh_isUnder(o.Path, s.Path) && s.Kind != m.KDir {
 					replaced = true // an ancestor directory was replaced by a non-directory
 				}
 			}
@@ -244,7 +244,7 @@ func VH_C01_e2e() {
 			v.Assert(a != nil && a.Kind == o.Kind && string(a.Data) == string(o.Data) && a.Target == o.Target, "in merge mode nothing is deleted that the source does not replace")
 		}
 	} else {
-		specTreesEqual(srcSnap, dstSnap, func(p string) bool { return !priorDirs[p] })
+		vh_specTreesEqual(srcSnap, dstSnap, func(p string) bool { return !priorDirs[p] })
 	}
 	after := m.Snapshot(srcRoot)
 	v.Assert(len(after) == len(srcSnap), "the source tree is not modified")
